@@ -177,6 +177,20 @@ def r40_broadcast(facts):
                 aligned = "left"
         else:
             aligned = "mixed"
+        pnames = [p_["pat"].get("v") for p_ in facts.params(b) if p_.get("pat") and p_["pat"].get("k") == "Binding"]
+        for n_ in walk(facts.root(b)):
+            if n_.get("k") == "Tuple" and len(n_["fields"]) == 2 and all("usize" in (strip(f_).get("ty") or "") for f_ in n_["fields"]):
+                srcs = []
+                for f_ in n_["fields"]:
+                    f0 = peel(f_)
+                    while isinstance(f0, dict) and f0.get("k") == "Call" and (callee(f0) or "").rsplit("::", 1)[-1] in ("to_owned", "to_vec", "clone") and f0["args"]:
+                        f0 = peel(f0["args"][0])
+                    srcs.append(F.var_of(f0))
+                if all(v in pnames for v in srcs) and len(pnames) == 2:
+                    if srcs[0] == srcs[1]:
+                        c.bad("dims:two-operands", F.loc(b, n_), "one branch pairs a parameter's dimensions with themselves (`%s`): the other operand's shape is ignored" % show(n_)[:50])
+                    else:
+                        c.ok("dims:two-operands", F.loc(b, n_), "the pair is made of the two different parameters", nontrivial=False)
         if aligned == "right":
             c.ok("dims:right-aligned", F.loc(b, z), "the two dimension vectors are paired from the last dimension (`rev()` on both sides, or the longer one sliced by the rank difference)")
         elif aligned in ("left", "mixed"):
@@ -325,6 +339,13 @@ def r40_broadcast(facts):
             if t.get("k") == "Call" and resolved(t) == _SLICED and len(t["args"]) >= 7:
                 if lit_value(t["args"][6]) == 0:
                     dims_e = t["args"][4]
+                # the dimensions the operands are broadcast TO (the walk's target) are the broadcast dimensions as well
+                tv_ = is_broadcast_dims(t["args"][3])
+                if isinstance(tv_, tuple):
+                    c.bad("target-dims:%s" % b["def"], F.loc(b, t["args"][3]), "the element-wise combinator hands `%s` - one operand's own dimensions - to sliced_op as the dimensions to broadcast to: "
+                          "the other operand is refused (or mis-walked) whenever it is the larger one" % tv_[1])
+                elif tv_ is True:
+                    c.ok("target-dims:%s" % b["def"], F.loc(b, t["args"][3]), "the operands are broadcast to the dimensions computed by the broadcast-shape function", nontrivial=False)
             elif t.get("k") == "Call" and (resolved(t) or "").startswith("<%s as core::convert::From<(" % ARRAY) and t["args"]:
                 tup = strip(t["args"][0])
                 if tup.get("k") == "Tuple" and len(tup["fields"]) == 2:
@@ -385,6 +406,16 @@ def r40_broadcast(facts):
                 continue
             cps = [p_ for p_ in facts.params(nb) if p_.get("pat")]
             arrv = cps[1]["pat"].get("v") if len(cps) >= 2 and cps[1]["pat"].get("k") == "Binding" else None
+            outv_ = cps[0]["pat"].get("v") if cps and cps[0]["pat"].get("k") == "Binding" else None
+            for n in walk(facts.root(nb)):
+                fl_ = F.for_loop_parts(n)
+                if fl_ and outv_ and any(x.get("k") in ("VarRef", "UpvarRef") and x["v"] == outv_ for x in walk(fl_[0])):
+                    posn = [x for x in walk(fl_[0]) if x.get("k") == "Call" and (callee(x) or "").rsplit("::", 1)[-1] in ("take", "skip", "step_by", "filter", "take_while", "skip_while")]
+                    if posn:
+                        c.bad("fill:%s" % b["def"], F.loc(nb, posn[0]), "the loop that fills the output row is cut by `%s`: some elements of the result are never computed (they keep the initial 0)"
+                              % (callee(posn[0]) or "").rsplit("::", 1)[-1])
+                    else:
+                        c.ok("fill:%s" % b["def"], F.loc(nb, fl_[0]), "the loop over the output row visits every element", nontrivial=False)
             for n in walk(facts.root(nb)):
                 if not (n.get("k") == "Binary" and n.get("op") == "Rem"):
                     continue
